@@ -343,7 +343,13 @@ func (b *builder) makeDeps() {
 		var dir string
 		for try := 0; ; try++ {
 			forms := dirForms(name)
-			dir = b.pick(depParentPool) + "/" + b.pick(forms)
+			form := b.pick(forms)
+			if !b.hz.NumberedVsQualifier && strings.HasSuffix(form, "/v2") {
+				// on a name conflict moq aliases .../val/v2 as v2, which the numbered names v1, v2 of unnamed
+				// parameters are not checked against (KF-numbered-name-vs-qualifier)
+				form = name + "/vtwo"
+			}
+			dir = b.pick(depParentPool) + "/" + form
 			if try > 20 {
 				dir = fmt.Sprintf("u%d/%s", i, name)
 			}
